@@ -394,6 +394,168 @@ def codec_extract():
         lines += [f"/-- `{what}` -/", f"def {name} {params} : Nat :=", "  " + Expr(m.group(1), 8, bools).parse()]
     lines += ["end Elvis.Gen.Codec", ""]
     write_if_changed("Codec.lean", "\n".join(lines))
+# ---------------------------------------------------------------------------------------------
+# ARP / DNS / DHCP codecs (C08b, C14b): constants + structural certificates -> Generated/CodecB.lean
+# ---------------------------------------------------------------------------------------------
+def _byte_literal(lit):
+    """b' ' / b'\0' / b'\x20' -> int"""
+    m = re.fullmatch(r"b'(\\x[0-9a-fA-F]{2}|\\.|[^\\'])'", lit)
+    if not m:
+        raise ExtractError(f"cannot read byte literal {lit}")
+    c = m.group(1)
+    if c.startswith("\\x"):
+        return int(c[2:], 16)
+    if c.startswith("\\"):
+        esc = {"0": 0, "n": 10, "r": 13, "t": 9, "\\": 92, "'": 39, '"': 34}
+        if c[1] not in esc:
+            raise ExtractError(f"cannot read byte literal {lit}")
+        return esc[c[1]]
+    return ord(c)
+
+
+def _non_test(path):
+    """source without comments and without `#[cfg(test)] mod … { … }` blocks (wherever they are)"""
+    src = strip_comments(read(path))
+    while True:
+        m = re.search(r"#\[cfg\(test\)\]\s*mod\s+\w+\s*\{", src)
+        if not m:
+            return src
+        depth, j = 0, m.end() - 1
+        while j < len(src):
+            if src[j] == "{":
+                depth += 1
+            elif src[j] == "}":
+                depth -= 1
+                if depth == 0:
+                    break
+            j += 1
+        src = src[:m.start()] + src[j + 1:]
+
+
+def _fn_body(src, header_re, what):
+    m = re.search(header_re, src)
+    if not m:
+        raise ExtractError(f"{what}: function not found")
+    i = src.index("{", m.end() - 1) if src[m.end() - 1] != "{" else m.end() - 1
+    depth, j = 0, i
+    while j < len(src):
+        if src[j] == "{":
+            depth += 1
+        elif src[j] == "}":
+            depth -= 1
+            if depth == 0:
+                return src[i:j + 1]
+        j += 1
+    raise ExtractError(f"{what}: unbalanced braces")
+
+
+PANIC_TOKENS = (".unwrap()", ".expect(", "unreachable!", "panic!", "unimplemented!", "todo!", "assert!", "assert_eq!",
+                "assert_ne!", "unwrap_unchecked", "unsafe")
+
+
+def _certify_no_panic(body, what, allowed_arith=()):
+    """the decoders' panic sites are exactly those of the model: no panic token, no slice/array indexing,
+    no arithmetic other than the sites listed (each of which is a modelled checked operation)"""
+    for tok in PANIC_TOKENS:
+        if tok in body:
+            raise ExtractError(f"{what} contains `{tok}`: a panic site the model (Model/Codec) does not have")
+    if re.search(r"[A-Za-z0-9_\)\]]\s*\[[^\]]*\]", body.replace("Vec::from([", "(").replace("vec![", "(")):
+        raise ExtractError(f"{what} contains an index/slice expression: a panic site the model does not have")
+    arith = re.findall(r"[A-Za-z0-9_\)]+\s*(?:\+=|-=|\*=|/=|%=|<<=|>>=)\s*[^;]+;|[A-Za-z0-9_\)]\s+[-+*/%]\s+[A-Za-z0-9_\(]", body)
+    arith = [re.sub(r"\s+", " ", a.strip()) for a in arith]
+    if sorted(arith) != sorted(allowed_arith):
+        raise ExtractError(f"{what}: arithmetic sites {arith} differ from the modelled ones {list(allowed_arith)}")
+
+
+def _enum_codes(src, name):
+    m = re.search(r"pub enum " + name + r"\s*\{([^}]*)\}", src)
+    if not m:
+        raise ExtractError(f"enum {name} not found")
+    codes, nxt = [], 0
+    for item in [x.strip() for x in m.group(1).split(",") if x.strip()]:
+        mm = re.fullmatch(r"(\w+)(?:\s*=\s*(\d+))?", item)
+        if not mm:
+            raise ExtractError(f"enum {name}: cannot read variant `{item}`")
+        if mm.group(2) is not None:
+            nxt = int(mm.group(2))
+        codes.append((mm.group(1), nxt))
+        nxt += 1
+    return codes
+
+
+def _const(src, name):
+    m = re.search(r"const " + name + r":\s*\w+\s*=\s*(0x[0-9a-fA-F_]+|[0-9_]+)\s*;", src)
+    if not m:
+        raise ExtractError(f"const {name} not found")
+    return int(m.group(1).replace("_", ""), 0)
+
+
+def extract_codec_b():
+    P = os.path.join(CORE, "protocols")
+    arp = _non_test(os.path.join(P, "arp", "arp_parsing.rs"))
+    dns = _non_test(os.path.join(P, "dns", "dns_parsing.rs"))
+    dhcp = _non_test(os.path.join(P, "dhcp", "dhcp_parsing.rs"))
+    # --- delimiters: one literal, used consistently by decoder and encoder
+    BYTE = r"b'(?:\\.|[^'])+'"
+    body = _fn_body(dns, r"pub fn from_bytes\b[^{]*\{", "dns from_bytes")
+    d_dec = re.findall(BYTE, body)
+    d_enc = re.findall(BYTE, dns.replace(body, ""))
+    if len(d_dec) < 2 or len(d_enc) < 2 or len(set(d_dec + d_enc)) != 1:
+        raise ExtractError(f"dns_parsing.rs: name delimiter is not one byte literal used by from_bytes and by the builders: {d_dec} {d_enc}")
+    dns_delim = _byte_literal(d_dec[0])
+    body = _fn_body(dhcp, r"pub fn from_bytes\b[^{]*\{", "dhcp from_bytes")
+    t_dec = re.findall(BYTE, body)
+    t_enc = re.findall(BYTE, dhcp.replace(body, ""))
+    if len(t_dec) < 2 or len(t_enc) < 2 or len(set(t_dec + t_enc)) != 1:
+        raise ExtractError(f"dhcp_parsing.rs: string terminator is not one byte literal used by from_bytes and by to_message: {t_dec} {t_enc}")
+    dhcp_term = _byte_literal(t_dec[0])
+    # --- enum codes and the decoders' matches on them
+    mt = _enum_codes(dhcp, "MessageType")
+    arms = [(int(a), b) for a, b in re.findall(r"(\d+)\s*=>\s*Ok\(MessageType::(\w+)\)", _fn_body(dhcp, r"fn try_from\b[^{]*\{", "MessageType::try_from"))]
+    if sorted(arms) != sorted((c, n) for n, c in mt):
+        raise ExtractError(f"MessageType::try_from arms {arms} do not invert the enum discriminants {mt}")
+    op = _enum_codes(arp, "Operation")
+    arms = [(int(a), b) for a, b in re.findall(r"(\d+)\s*=>\s*Operation::(\w+)", _fn_body(arp, r"pub fn from_bytes\b[^{]*\{", "arp from_bytes"))]
+    if sorted(arms) != sorted((c, n) for n, c in op):
+        raise ExtractError(f"ArpPacket::from_bytes operation arms {arms} do not invert the enum discriminants {op}")
+    # --- structural certificates: the panic sites of the decoders are those of the model
+    _certify_no_panic(_fn_body(arp, r"pub fn from_bytes\b[^{]*\{", "arp from_bytes"), "ArpPacket::from_bytes")
+    _certify_no_panic(_fn_body(dns, r"pub fn from_bytes\b[^{]*\{", "dns from_bytes"), "DnsMessage::from_bytes", allowed_arith=("i += 1;",))
+    _certify_no_panic(_fn_body(dns, r"pub fn query_name\b[^{]*\{", "query_name"), "DnsQuestion::query_name")
+    _certify_no_panic(_fn_body(dhcp, r"pub fn from_bytes\b[^{]*\{", "dhcp from_bytes"), "DhcpMessage::from_bytes")
+    _certify_no_panic(_fn_body(dhcp, r"fn try_from\b[^{]*\{", "try_from"), "MessageType::try_from")
+    for path, what in ((os.path.join(P, "dhcp", "dhcp_client.rs"), "DhcpClient::demux"),
+                       (os.path.join(ELVIS, "applications", "dhcp_server.rs"), "DhcpServer::demux"),
+                       (os.path.join(P, "arp.rs"), "Arp::demux")):
+        body = _fn_body(_non_test(path), r"fn demux\b[^{]*\{", what)
+        if re.search(r"from_bytes\([^;]*?\)\s*\.(unwrap|expect)\(", body, flags=re.S):
+            raise ExtractError(f"{what} unwraps the result of from_bytes: a panic site the model does not have")
+    # the DNS responder / resolver propagate decode failures (F-C14-4)
+    srv = _non_test(os.path.join(P, "dns", "dns_server.rs"))
+    cli = _non_test(os.path.join(P, "dns", "dns_client.rs"))
+    for src, what, pats in (
+            (srv, "DnsServer", (r"\.recv\w*\([^;]*?\)\s*\.await\s*\.(unwrap|expect)\(", r"from_bytes\([^;]*?\)\s*\.(unwrap|expect)\(", r"query_name\(\)\s*\.(unwrap|expect)\(",
+                               r"respond_to_query\([^;]*?\)\s*\.await\s*\.(unwrap|expect)\(")),
+            (cli, "DnsClient::get_host_by_name", (r"\.recv\w*\([^;]*?\)\s*\.await\s*\.(unwrap|expect)\(", r"from_bytes\([^;]*?\)\s*\.(unwrap|expect)\(", r"from_utf8\([^;]*?\)\s*\.(unwrap|expect)\(",
+                                                 r"get_mapping\(&name\)\s*\.(unwrap|expect)\("))):
+        for pat in pats:
+            if re.search(pat, src, flags=re.S):
+                raise ExtractError(f"{what} unwraps a decode result (`{pat}`): a panic site the model (Dns.serverRespond / Dns.clientHandle) does not have")
+    if re.search(r"rdata\[\d\]", cli) and not re.search(r"rdata\.len\(\)\s*<\s*4", cli):
+        raise ExtractError("DnsClient::get_host_by_name indexes rdata[0..4] without the length check the model has")
+    lines = ["-- GENERATED from /repo sources (arp_parsing.rs, dns_parsing.rs, dhcp_parsing.rs) by tools/extract.py on every check; do not edit",
+             "namespace Elvis.Gen.CodecB",
+             f"/-- the name delimiter literal of dns_parsing.rs (from_bytes x2, build x2) -/\ndef dnsDelim : UInt8 := {dns_delim}",
+             f"/-- the string terminator literal of dhcp_parsing.rs (from_bytes x2, to_message x2) -/\ndef dhcpTerm : UInt8 := {dhcp_term}",
+             "/-- `enum MessageType` discriminants (and `try_from` inverts them: checked by the extractor) -/",
+             "def dhcpTypeCodes : List (String × Nat) := [" + ", ".join(f'("{n}", {c})' for n, c in mt) + "]",
+             "/-- `enum Operation` discriminants (and `from_bytes` inverts them: checked by the extractor) -/",
+             "def arpOperationCodes : List (String × Nat) := [" + ", ".join(f'("{n}", {c})' for n, c in op) + "]",
+             f"def arpHtype : Nat := {_const(arp, 'HTYPE')}", f"def arpPtype : Nat := {_const(arp, 'PTYPE')}",
+             f"def arpHlen : Nat := {_const(arp, 'HLEN')}", f"def arpPlen : Nat := {_const(arp, 'PLEN')}",
+             f"def arpSize : Nat := {_const(arp, 'SIZE')}",
+             "end Elvis.Gen.CodecB", ""]
+    write_if_changed("CodecB.lean", "\n".join(lines))
 
 
 def main():
@@ -401,6 +563,7 @@ def main():
     gen_sim_cert()
     subnet_kernels()
     codec_extract()
+    extract_codec_b()
     consts = ["-- GENERATED from /repo sources by tools/extract.py on every check; do not edit", "namespace Elvis.Gen", "end Elvis.Gen", ""]
     consts = ["-- GENERATED from /repo sources by tools/extract.py on every check; do not edit", "namespace Elvis.Gen"]
     # C11: reassembly timer lower bound (segment.rs `const TLB: u8 = 15;`)
